@@ -46,6 +46,13 @@ Main theorem:
   The availability map is emitted in the order of the association list, so the theorem covers every order Go's map
   iteration may choose.
 
+Fields the ASCII form does not carry:
+* `proto_fields_partition`, `enc_ignores_noncarried`, `encOutX_sound` : the field names of the proto definitions split
+  into the ones the encoder model reads and five it has no line for (bus status, event time stamp, previous value of
+  absolute / speed events); message lists that differ only there encode equally, and the reader gets the effects of the
+  carried part.  Correspondence: `eout.fields` (the two lists = the real protobuf descriptors), `eout.msgsx` (real encoder
+  on messages with these fields set, arbitrary and coinciding with carried values).
+
 C binding (`rawpanel-lib-c/main.go` `OutboundMessageToRawPanelASCIIstring`: LF-join, `C.CString`):
 * `cbinding_lines` : if no returned string contains NUL, the C caller (reading to the first NUL, splitting at LF) gets
   exactly the returned strings; `encOut_no_nul` : no NUL in the message's strings / oracle texts ⇒ none in the output
@@ -285,5 +292,42 @@ example : inDomainOut exOracle exMsgsUtf8 = true ∧ exMsgsUtf8.all OutLemmas.fl
 
 /-- non-vacuity: a concrete event at the top of the ranges -/
 example : edgeOk 16 = true ∧ (4294967295 : Nat) ≤ u32Max ∧ inI32 (-2147483648) = true := by decide
+
+/-! ## fields the ASCII form does not carry
+
+The proto definitions have five fields the encoder has no line for: `OutboundMessage.BusStatus` (`BusStatus.Fault`),
+`HWCEvent.Timestamp`, `AbsoluteEvent.PrevValue`, `SpeedEvent.PrevValue` (`EncOut.protoFieldsNotCarried`; every other field
+of the definitions is in `EncOut.protoFieldsRead` and is a field of `MsgOut`'s types — the `eout.fields` record compares
+the two lists with the real protobuf descriptors).  `OutMsgX` is a message with those fields. -/
+
+/-- the two lists partition the field names: no name is in both, none is listed twice -/
+theorem proto_fields_partition :
+    protoFieldsRead.all (fun f => !protoFieldsNotCarried.contains f) = true ∧
+    (protoFieldsRead ++ protoFieldsNotCarried).Nodup := by
+  decide +kernel
+
+/-- **the encoder ignores the non-carried fields**: two message lists that differ only in bus status, time stamps and
+previous values encode to the same lines (model level; the real encoder is sampled on messages with these fields set to
+arbitrary and to coinciding values — `PrevValue = Value`, `Timestamp = HWCID` — by the `eout.msgsx` records) -/
+theorem enc_ignores_noncarried (o : OutOracle) (a b : List OutMsgX) (h : a.map (·.msg) = b.map (·.msg)) :
+    encOutX o a = encOutX o b := by
+  unfold encOutX
+  rw [h]
+
+/-- … and whatever those fields hold, the reader of the lines gets exactly the effects of the carried part -/
+theorem encOutX_sound (o : OutOracle) (ms : List OutMsgX) (h : inDomainOut o (ms.map (·.msg)) = true) (hpf : ∀ t, o.parseF t = t) :
+    readOutbound o (encOutX o ms) = (ms.map (·.msg)).flatMap (effectsOfOut o) := by
+  unfold encOutX
+  exact encOut_sound_full o _ h hpf
+
+/-- non-vacuity: a fader event with `PrevValue = Value`, a time stamp and a bus status next to the same message without
+them: same lines, and the event is on them -/
+example :
+    let m : OutMsg := { events := [{ hwcid := 40, absolute := some 700 }, { hwcid := 41, speed := some (-3) }] }
+    let a : List OutMsgX := [{ msg := m, busFault := some true, evNC := [{ timestamp := 40, absPrev := 700 }, { speedPrev := -3 }] }]
+    let b : List OutMsgX := [{ msg := m }]
+    a.map (·.msg) = b.map (·.msg) ∧ encOutX exOracle a = [asc "HWC#40=Abs:700", asc "HWC#41=Speed:-3"] ∧
+      encOutX exOracle a = encOutX exOracle b := by
+  decide
 
 end RawPanelVerif.C03
